@@ -231,7 +231,10 @@ impl<M: ConvexCellMarker> Iterator for ConvexCellDecomposition<'_, M> {
     }
 }
 
-pub(crate) trait ConvexCellMarker: Clone + Send + Sync + Default {}
+/// Marker trait for the two states of a [`ConvexCell`] ([`WithoutFaces`] and [`WithFaces`]).
+/// It is public because the methods of the integral traits are generic over it: downstream
+/// crates need to name it to implement their own integrals.
+pub trait ConvexCellMarker: Clone + Send + Sync + Default {}
 
 #[derive(Copy, Clone, Default)]
 pub struct WithoutFaces;
